@@ -112,6 +112,13 @@ pub fn file_content(f: &FileCfg) -> Vec<u8> {
     match f.content_kind.as_str() {
         "noise" => Rng::new(f.content_seed).bytes(f.size),
         "zero" => vec![0u8; f.size],
+        // data, then zeroes up to the end (at least one whole 4 KiB block of them when the size allows)
+        "tail-zeros" => {
+            let mut v = Rng::new(f.content_seed).bytes(f.size);
+            let keep = f.size.saturating_sub(4200).max(f.size / 4);
+            v[keep..].iter_mut().for_each(|b| *b = 0);
+            v
+        }
         _ => {
             let mut r = Rng::new(f.content_seed);
             let words = ["lorem ", "ipsum ", "dolor\n", "sit ", "amet ", "rpm ", "0123456789 ", "\t", "é"];
@@ -606,11 +613,11 @@ pub fn gen_cfg(r: &mut Rng, o: &GenOpts) -> BuildCfg {
         let kind = if o.regular_only { 0 } else { r.below(10) };
         let (mode, symlink, size, content_kind) = match kind {
             // symlink
-            0 if !o.regular_only && r.bool() => (Some(0o120000 | 0o777), Some(["../target", "/etc/alternatives/x", "rel", "ünï/ö"][r.usize(4)].to_string()), 0usize, "zero"),
+            0 if !o.regular_only && r.bool() => (Some(0o120000 | 0o777), Some(["../target", "/etc/alternatives/x", "rel", "ünï/ö", "//fileserver/share/x", "a//b", "./c/../d/"][r.usize(7)].to_string()), 0usize, "zero"),
             // directory entry
             1 if !o.regular_only => (Some(0o040000 | [0o755, 0o700, 0o1777, 0o2775][r.usize(4)]), None, 0usize, "zero"),
             // explicit regular mode
-            2..=5 => (Some(0o100000 | [0o644, 0o755, 0o600, 0o4755, 0o2755, 0o1644, 0o7777, 0o000, 0o444][r.usize(9)]), None, size, if r.bool() { "noise" } else { "text" }),
+            2..=5 => (Some(0o100000 | [0o644, 0o755, 0o600, 0o4755, 0o2755, 0o1644, 0o7777, 0o000, 0o444, 0o664, 0o666, 0o660][r.usize(12)]), None, size, if r.bool() { "noise" } else { "text" }),
             // inherited
             _ => (None, None, size, if r.bool() { "noise" } else { "text" }),
         };
